@@ -146,6 +146,15 @@ func (p *peer) handle(conn net.Conn, sc *script) {
 
 // ---------------------------------------------------------------- fetcher ops
 
+// peerCtl: what fFetch needs from the scripted peer (TLS or QUIC).
+type peerCtl struct {
+	setNext func(*script)
+	accepts func() int64
+	obs     chan observed
+}
+
+var cur peerCtl
+
 var (
 	thePeer  *peer
 	fetcher  *ntske.Fetcher
@@ -165,6 +174,13 @@ func fNew() string {
 	fetcher.Port = thePeer.port
 	opIndex = 0
 	exKeys = map[int][2][]byte{}
+	quicMode = false
+	p := thePeer
+	cur = peerCtl{
+		setNext: func(sc *script) { p.mu.Lock(); p.next = sc; p.mu.Unlock() },
+		accepts: p.accepts.Load,
+		obs:     p.obs,
+	}
 	return "ok"
 }
 
@@ -213,7 +229,8 @@ func fetchErrClass(err error) string {
 		return "dial"
 	}
 	c := readErrClass(err)
-	if c == "eof" || c == "unexpected-eof" || (strings.HasPrefix(c, "other:read_tcp") && strings.Contains(c, "connection_reset")) {
+	if c == "eof" || c == "unexpected-eof" || (strings.HasPrefix(c, "other:read_tcp") && strings.Contains(c, "connection_reset")) ||
+		(quicMode && isQUICIOErr(s)) {
 		return "read-io"
 	}
 	return c
@@ -244,6 +261,9 @@ func fFetch(t []string) string {
 	if sc.dropPre {
 		wantDial = false
 	}
+	if q, _ := kv(t, "quic"); (q == "1") != quicMode || (quicMode && (!wantDial || wantProto == "" || sc.dropPre)) {
+		panic("bad-op") // dial failures are not scripted over QUIC
+	}
 	dialTok, _ := kv(t, "dial")
 	alpnTok, _ := kv(t, "alpn")
 	hostTok, _ := kv(t, "host")
@@ -252,21 +272,19 @@ func fFetch(t []string) string {
 		panic("bad-op")
 	}
 
-	p := thePeer
-	p.mu.Lock()
-	p.next = sc
-	p.mu.Unlock()
-	before := p.accepts.Load()
+	p := cur
+	p.setNext(sc)
+	before := p.accepts()
 	ctx, cancel := context.WithTimeout(context.Background(), 10*time.Second)
 	data, err := fetcher.FetchData(ctx)
 	cancel()
 	exch := false
 	// a connection attempt that reached the listener is accepted at the latest now
 	deadline := time.Now().Add(200 * time.Millisecond)
-	for p.accepts.Load() == before && err != nil && time.Now().Before(deadline) {
+	for p.accepts() == before && err != nil && time.Now().Before(deadline) {
 		time.Sleep(time.Millisecond)
 	}
-	if p.accepts.Load() != before {
+	if p.accepts() != before {
 		exch = true
 		select {
 		case o := <-p.obs:
@@ -283,9 +301,7 @@ func fFetch(t []string) string {
 			return "harness-assumption-broken peer-stuck"
 		}
 	} else {
-		p.mu.Lock()
-		p.next = nil
-		p.mu.Unlock()
+		p.setNext(nil)
 	}
 	lastExch = exch
 	pool := hexList(fetcher.VerifC20Data().Cookie)
